@@ -77,7 +77,7 @@ def gen_cases(rng, tier):
             if all(x is None for x in a):
                 continue
             t = build_tqc(c, view, a, reports)
-            cases.append({"op": "implied", "g": G, "e": str(E), "committee": M.committee_json(c), "payload_ids": list(range(0, 8)),
+            cases.append({"op": "implied", "g": G, "e": str(E), "committee": [e + [1 if (i + len(cases)) % 3 else (0 if i else 1)] for i, e in enumerate(M.committee_json(c))], "payload_ids": list(range(0, 8)),
                           "j": {"timeout": t}, "first_block": "0", "_c": c, "_assign": a, "_reports": reports})
     return cases, n0
 
